@@ -585,7 +585,10 @@ func (e *lookupEnv) oracleC18() *trie.Stat {
 			bad("empty")
 		}
 	case 1:
-		if s.KeyCnt != 1 || s.NodeCnt != 1 {
+		// (1 key, 1 node) is promised for a trie built from a single key; a
+		// longer list de-duplicated down to one retained key legitimately
+		// keeps a single-label inner node above the leaf.
+		if len(m.Keys) == 1 && (s.KeyCnt != 1 || s.NodeCnt != 1) {
 			bad("single")
 		}
 	default:
